@@ -256,7 +256,7 @@ func init() {
 		Rule: "v1 (package lib) cases are (a, b, metadata) over {none, SET, MULTISET, SET+Setkeys(id), MERGE (null-free), SET+MERGE, MULTISET+MERGE, SetPrecision(0.1), MULTISET+Setkeys(id)}: random structured pairs (plus set / multiset members that are 1-140 KB strings differing in one middle byte, multiplicities up to 257) with arrays growing, shrinking and changing in place, equal-under-reading pairs, keyed member pairs, " +
 			"every array pair over {1,2,3} up to length 4 at three positions; verdict: diff empty <=> lib Equals <=> independent oracle; Patch of the in-memory diff (on a fresh parse of a and on the very operand the diff was computed from) and of the rendered+re-read diff gives b (lib Equals and reference canon); plus the -v2=false binary pipeline; " +
 			"non-trivial = non-empty diff; distinct = distinct (a, b, metadata)",
-		Floors: map[string]int{"round_trips_ok": 50000, "diff_empty": 5000, "hunks>=2": 10000, "root_array_grows": 3000, "root_array_shrinks": 3000, "root_array_same_length": 3000, "cli_v1_pipelines": 200, "b_is_patch_result": 3000, "applied_to_the_operand_itself": 5000, "multiset_with_setkeys": 3000, "uncommon_metadata_pairs": 3000, "keyless_members_next_to_keyed": 3000, "a_is_patch_result": 2000, "copies_made_by_a_multiset_patch": 1000, "twin_member_pairs": 5000, "bulky_member_cases": 300},
+		Floors: map[string]int{"round_trips_ok": 50000, "diff_empty": 5000, "hunks>=2": 10000, "root_array_grows": 3000, "root_array_shrinks": 3000, "root_array_same_length": 3000, "cli_v1_pipelines": 200, "b_is_patch_result": 3000, "applied_to_the_operand_itself": 5000, "multiset_with_setkeys": 3000, "uncommon_metadata_pairs": 3000, "keyless_members_next_to_keyed": 3000, "a_is_patch_result": 2000, "copies_made_by_a_multiset_patch": 1000, "twin_member_pairs": 5000, "setkeys_without_set": 3000, "bulky_member_cases": 300},
 		Assumptions: []string{
 			"v1 needs SET next to Setkeys for keyed sets (dispatch looks at SET / MULTISET only)",
 			"MERGE inputs are null-free; Setkeys inputs satisfy the key precondition with scalar key values",
@@ -409,6 +409,25 @@ func init() {
 			a, b = addKeyless(a), addKeyless(b)
 			c.Feature("keyless_members_next_to_keyed")
 			c17Judge(c, ref.ToJSON(a), ref.ToJSON(b), V1Keys)
+		},
+	})
+	// Setkeys alone: without SET v1 reads arrays as ordered lists (its dispatch looks at SET / MULTISET only)
+	v1KeysAlone := V1Set{Name: "v1:Setkeys(id) alone", MD: func() []lib.Metadata { return []lib.Metadata{lib.Setkeys("id")} }, Reading: ref.List, Flags: []string{"-setkeys", "id"}}
+	p.Strata = append(p.Strata, mon.Stratum{
+		Name: "random/" + v1KeysAlone.Name,
+		N:    qt(5000, 300000),
+		Run: func(c *mon.Ctx, i int) {
+			prof := gen.PTiny.With(func(p *gen.Profile) { p.Keys = []string{"id", "v"}; p.Scalars = []any{1.0, 2.0, "a"} })
+			o := OptSet{Reading: ref.List}
+			a, b, _ := eqPair(c.R, o, prof)
+			if i%2 == 0 {
+				a, b = gen.Pair(c.R, prof)
+				if c.R.Chance(0.4) {
+					b = reorder(c.R, ref.Clone(a), false) // the same members in another order: different as lists
+				}
+			}
+			c.Feature("setkeys_without_set")
+			c17Judge(c, ref.ToJSON(a), ref.ToJSON(b), v1KeysAlone)
 		},
 	})
 	// MULTISET together with Setkeys: the arrays stay bags (v1 reads keyed sets under SET only)
